@@ -53,6 +53,13 @@ M = [
     ('pluck-list-order', 'streamz/core.py', "            return self._emit(tuple([x[ind] for ind in self.pick]),", "            return self._emit(tuple([x[ind] for ind in sorted(self.pick, key=str)]),", ['C01']),
     ('partition-key-nocall', 'streamz/core.py', "        if callable(self._key):\n            return self._key(x)\n        return x[self._key]", "        if callable(self._key):\n            return self._key(x)\n        return self._key", ['C01']),
     ('zip-maxsize-off', 'streamz/core.py', "        elif len(L) > self.maxsize:", "        elif len(L) > self.maxsize + 1:", ['C03']),
+    ('textfile-source-no-await', 'streamz/sources.py', "                for part in parts:\n                    await asyncio.gather(*self._emit(part + self.delimiter))",
+     "                for part in parts:\n                    asyncio.gather(*self._emit(part + self.delimiter))", ['C03']),
+    ('filenames-source-no-await', 'streamz/sources.py', "            self.seen.add(fn)\n            await asyncio.gather(*self._emit(fn))", "            self.seen.add(fn)\n            asyncio.gather(*self._emit(fn))", ['C03']),
+    ('iterable-source-no-await', 'streamz/sources.py', "            await asyncio.gather(*self._emit(x))\n            if self.stopped:\n                break\n        self.stopped = True", "            asyncio.gather(*self._emit(x))\n            if self.stopped:\n                break\n        self.stopped = True", ['C03', 'C18']),
+    ('kafka-batch-past-high', 'streamz/sources.py', "                if high >= msg.offset():\n                    if keys:", "                if True:\n                    if keys:", ['C09']),
+    ('zip-late-input-bounded-deque', 'streamz/core.py', "        self.buffers[upstream] = deque()\n        super(zip, self)._add_upstream(upstream)", "        self.buffers[upstream] = deque(maxlen=self.maxsize)\n        super(zip, self)._add_upstream(upstream)", ['C15']),
+    ('gather-no-wait-downstream', 'streamz/dask.py', "        result2 = yield self._emit(result, metadata=metadata)", "        result2 = self._emit(result, metadata=metadata)", ['C20']),
 ]
 
 
